@@ -4,12 +4,13 @@ CONSTANTS
   NL = 4
   SB = 2
   Deviation = "none"
-  Threads = {1, 2}
+  Threads = {1}
   Clocks <- ClocksA
   Kinds = {"hard", "mono", "nano"}
   NodeBitsSet = {1, 2}
+  LowSet = {TRUE, FALSE}
   SeedTimes = {0, 2}
-  MaxCalls = 6
+  MaxCalls = 7
 INVARIANTS TypeOK MaxIsMax NonNeg LimbsOK
 PROPERTIES Contract
 CONSTRAINT Bound
